@@ -39,7 +39,7 @@ def run(chk: core.Check) -> None:
         "coordinates: column numbers 0..N exhaustively + random to 1e9, words over A-Z, "
         "coordinate strings (cell, area, partial forms, blanks, lower case, malformed stream), "
         "increment lattice; non-trivial = multi-letter column / area or partial string / "
-        "negative index / malformed string. tables: every coordinate-taking method called "
+        "negative index / malformed string. tables (repeated cells, rows stored once and standing for 1..3 rows, ragged twin): every coordinate-taking method called "
         "with str form and tuple form, negative indices, range bounds vs slicing of the full "
         "matrix; named ranges over accepted table names; spreadsheets of 2-4 tables whose names "
         "are drawn from one family (a name, the name with a suffix / prefix / both, doubled, cut, "
@@ -180,19 +180,26 @@ def build_table(rng, w, h, ragged=False):
     t = Table("T")
     vals = []
     # ragged: rows stored shorter than the table is wide (what set_value / set_cell naturally leave): reads complete them
-    for y in range(h):
+    y = -1
+    while len(vals) < h:
+        y += 1
         row = Row()
         rv = []
         x = 0
         wy = w if (not ragged or y == 0) else rng.randint(1, w)
+        # rows stored once and standing for 1..3 rows (table:number-rows-repeated): a range may begin or end inside such a run
+        rrep = min(rng.choice([1, 1, 2, 3]), h - len(vals))
         while x < wy:
             rep = min(rng.choice([1, 1, 2, 3]), wy - x)
             v = rng.choice([None, f"v{y}_{x}", x * 10 + y])
             row.append_cell(Cell(v, repeated=rep if rep > 1 else None))
             rv += [v] * rep
             x += rep
+        if rrep > 1:
+            row.repeated = rrep
         t.append_row(row)
-        vals.append(rv + [None] * (w - len(rv)))
+        for _ in range(rrep):
+            vals.append(rv + [None] * (w - len(rv)))
     return t, vals
 
 
